@@ -83,7 +83,15 @@ def run_pbt_shard(spec):
                    "VERIF_SCRATCH": spec["scratch"]})
     cfg = ",".join("%s=%s" % kv for kv in spec["cfg"].items())
     cmd = [spec["binary"], "--gen", spec["gen"], "--cfg", cfg, "--out", out, "--marker", marker, "--samples", "3"]
-    return run_shard_generic(spec, cmd, env, out, marker)
+    dump = None
+    if spec.get("extra", {}).get("dump"):
+        dump = os.path.join(spec["scratch"], spec["name"] + ".dump")
+        cmd += ["--dump", dump]
+    if spec.get("extra", {}).get("valgrind"):
+        cmd = ["valgrind", "-q", "--error-exitcode=98", "--exit-on-first-error=yes", "--track-origins=no", "--leak-check=no"] + cmd
+    res = run_shard_generic(spec, cmd, env, out, marker)
+    res["dump"] = dump
+    return res
 
 
 def run_enum_shard(spec):
@@ -311,7 +319,9 @@ def do_replay(pid, path):
         j = p["jobs"]("quick", 1)[0]
         executor, config = j["executor"], j.get("config", "san")
     if "replay_hook" in p:
-        return p["replay_hook"](pid, path, text)
+        rv = p["replay_hook"](pid, os.path.abspath(path), text)
+        if rv is not None:
+            return rv
     if "buildcheck 1" in text:
         targets = set()
         for j in p["jobs"]("quick", 1):
@@ -419,7 +429,7 @@ def _run_check(pid, p, tier, seed, jobs, findings, scratch, t0):
         fe = j.get("frontend", j["engine"])
         for s in range(nsh):
             specs.append(dict(engine=j["engine"], binary=bins[(fe, j["executor"], j.get("config", "san"))], gen=j.get("gen", ""), cfg=dict(j.get("cfg", {})),
-                              seed=(seed * 1000003 + ji * 1009 + s) % (1 << 62), cases=per, max_size=j.get("max_size", 60), scratch=scratch,
+                              seed=(seed * 1000003 + j.get("seed_group", ji) * 1009 + s) % (1 << 62), cases=per, max_size=j.get("max_size", 60), scratch=scratch,
                               name="j%d_s%d" % (ji, s), job=ji, shard=s, nshards=nsh, timeout=j.get("timeout", 1800 if tier == "quick" else 7200),
                               extra=j.get("extra", {})))
     results = []
@@ -529,6 +539,14 @@ def _run_check(pid, p, tier, seed, jobs, findings, scratch, t0):
             violations.append(dict(case=case, message="process aborted while executing this case: %s\n%s" % (summ, out[-3000:]),
                                    key="%s|abort|%s" % (cls, _abort_kind(summ)), executor=exe, config=config, crashed=True))
 
+    # ---- property-specific cross-job oracle (e.g. C17: digests equal across build configurations)
+    post_cov = {}
+    if p.get("post_merge"):
+        pm = p["post_merge"](dict(pid=pid, tier=tier, seed=seed, jobs=jobs, results=results, bins=bins, scratch=scratch, specs=specs))
+        violations += pm.get("violations", [])
+        broken += pm.get("broken", [])
+        post_cov = pm.get("coverage", {})
+
     # ---- one report per root-cause key (the smallest reproduction of each)
     by_key = {}
     for v in violations:
@@ -597,6 +615,8 @@ def _run_check(pid, p, tier, seed, jobs, findings, scratch, t0):
         ),
         assumptions=p.get("assumptions", []), wall_s=round(wall, 2), violations=len(fresh),
     )
+    if post_cov:
+        ev["coverage"].update(post_cov)
     if p.get("exhaustive_scope"):
         ev["coverage"]["exhaustive_scope"] = p["exhaustive_scope"].get(tier, "")
     if status == 2:
